@@ -143,10 +143,17 @@ class AofWrites(workloads.Pool):
         self.s.keys = [b'k1', b'k2', b'k3']
         self.c.keys = [b'l1', b's1', b'h1', b'k3']
         self.z.keys = [b'z1', b'k3']
+        self.script = []
 
     def next(self):
+        if self.script:
+            return self.script.pop(0)
         r = self.rnd.random()
-        if r < 0.06:
+        if r < 0.03:
+            # a pop served from a key that is not the first one named
+            self.script = [[b'BLPOP', b'nolist', b'l1', b'0.01'], [b'RPUSH', b'l1', b'p', b'q'], [b'BRPOP', b'nolist', b'l2', b'l1', b'0.01']]
+            return [b'RPUSH', b'l1', b'x', b'y', b'z']
+        if r < 0.08:
             # blocking pops that are answered at once (or time out after 10 ms): several keys, the pop may come from any
             ks = self.rnd.sample([b'l1', b'l2', b'nolist', b'k3'], self.rnd.choice([1, 2, 3]))
             return [self.rnd.choice([b'BLPOP', b'BRPOP'])] + ks + [b'0.01']
